@@ -152,7 +152,7 @@ func runC14(w *World, tier string) (bool, interface{}) {
 	members := AllMembers(n)
 	v := w.Tape.Choose(n, "victim")
 	nd := w.Nodes[v]
-	wantKind := []string{"submit", "submit", "submit", "approve", "reset"}[w.Tape.Choose(5, "kind")]
+	wantKind := []string{"submit", "submit", "submit", "approve", "reset", "roundtrip"}[w.Tape.Choose(6, "kind")]
 	raceAfter := w.Tape.Choose(70*n, "raceAfterSteps")
 	round, rep := c.StartDKG(w.Tape.Choose(n, "proposer"), t, members)
 	if !rep.OK() {
@@ -185,6 +185,17 @@ func runC14(w *World, tier string) (bool, interface{}) {
 		return w.CallAPI(nd, "approve", "POST", "/approveDKGParticipation", body)
 	}
 	for steps := 0; steps < 900*n && spec == nil && !w.Failed(); steps++ {
+		if wantKind == "roundtrip" && w.Steps >= raceAfter {
+			// the answer to an operation the racing tick itself creates (any step of the
+			// ceremony): hold the victim until something waits for it, then race
+			c.L.PausedPoll[v] = true
+			c.L.PausedOp[v] = true
+			if waiting := w.Board.Len() - int(nd.Offset()); waiting >= 1 && (waiting >= 3 || w.Tape.Bool(1, 3, "enough")) {
+				if len(nd.PendingOps()) == 0 || w.Tape.Bool(1, 2, "withOtherOpsPending") {
+					return roundTripAndJudge(w, nd, w.Airs[v], tier, n, t, "ordinary ceremony")
+				}
+			}
+		}
 		if prepared != nil || (wantKind == "reset" && w.Steps >= raceAfter) {
 			// hold v's poller until 1-3 messages are waiting for it
 			c.L.PausedPoll[v] = true
